@@ -22,6 +22,8 @@ type seed struct {
 }
 
 var seeds = []seed{
+	{"intIterator.init re-aims its run cursor field by field and forgets the offset", "R2", "roaring.go", "\t\t\tii.runIter = runIterator16{rc: t, curIndex: 0, curPosInIndex: 0}\n", "\t\t\tii.runIter.rc = t\n\t\t\tii.runIter.curIndex = 0\n", "init|re-aims runIter"},
+	{"the stream adapter skips with Seek when the reader happens to offer it", "B7", "internal/byte_input.go", "func (b *ByteInputAdapter) SkipBytes(n int) error {\n", "func (b *ByteInputAdapter) SkipBytes(n int) error {\n\tif s, ok := b.r.(io.Seeker); ok {\n\t\tif _, err := s.Seek(int64(n), io.SeekCurrent); err != nil {\n\t\t\treturn err\n\t\t}\n\t\tb.readBytes += n\n\t\treturn nil\n\t}\n", "SkipBytes|reader asserted"},
 	{"CheckedAdd uses the plain point kernel", "F8.point", "roaring.go", "\t\tC = C.iaddReturnMinimized(lowbits(x))\n\t\trb.highlowcontainer.setContainerAtIndex(i, C)\n\t\treturn C.getCardinality() > oldcard\n", "\t\tadded := C.iadd(lowbits(x))\n\t\t_ = oldcard\n\t\treturn added\n", "CheckedAdd|iadd"},
 	{"bitmapContainer.andNotArray tests the receiver cardinality instead of the result", "F8.bitmap", "bitmapcontainer.go", "\tif answer.cardinality <= arrayDefaultMaxSize {\n\t\treturn answer.toArrayContainer()\n\t}\n\treturn answer\n}\n\nfunc (bc *bitmapContainer) andNotBitmap", "\tif bc.cardinality <= arrayDefaultMaxSize {\n\t\treturn answer.toArrayContainer()\n\t}\n\treturn answer\n}\n\nfunc (bc *bitmapContainer) andNotBitmap", "andNotArray|return-bitmap"},
 	{"ParHeapOr starts the appender after feeding its workers", "P6", "parallel.go", "\tgo appenderRoutine(bitmapChan, resultChan, expectedKeysChan)\n\n\tfor i := 0; i < parallelism; i++ {\n\t\tgo orFunc()\n\t}\n\n\tidx := 0\n\tfor h.Len() > 0 {\n\t\tck := h.Next(pool.Get().([]container))\n\t\tif len(ck.containers) == 1 {\n\t\t\tresultChan <- keyedContainer{\n\t\t\t\tck.key,\n\t\t\t\tck.containers[0].clone(),\n\t\t\t\tidx,\n\t\t\t}\n\t\t\tpool.Put(ck.containers[:0])\n\t\t} else {\n\t\t\tck.idx = idx\n\t\t\tinputChan <- ck\n\t\t}\n\t\tidx++\n\t}\n\texpectedKeysChan <- idx\n", "\tfor i := 0; i < parallelism; i++ {\n\t\tgo orFunc()\n\t}\n\n\tidx := 0\n\tfor h.Len() > 0 {\n\t\tck := h.Next(pool.Get().([]container))\n\t\tif len(ck.containers) == 1 {\n\t\t\tresultChan <- keyedContainer{\n\t\t\t\tck.key,\n\t\t\t\tck.containers[0].clone(),\n\t\t\t\tidx,\n\t\t\t}\n\t\t\tpool.Put(ck.containers[:0])\n\t\t} else {\n\t\t\tck.idx = idx\n\t\t\tinputChan <- ck\n\t\t}\n\t\tidx++\n\t}\n\tgo appenderRoutine(bitmapChan, resultChan, expectedKeysChan)\n\texpectedKeysChan <- idx\n", "ParHeapOr|feeding loop"},
